@@ -4,6 +4,7 @@ import (
 	"crypto/aes"
 	"crypto/cipher"
 	"crypto/rand"
+	"errors"
 	"fmt"
 	"io"
 	"math"
@@ -14,6 +15,11 @@ import (
 var N = int(math.Pow(2, 16))
 
 func encrypt(key, salt, data []byte) ([]byte, error) {
+	// the password is dropped from memory when its lifetime ends: never store key material
+	// "encrypted" under no password at all
+	if len(key) == 0 {
+		return nil, errors.New("the encryption password is not set (it may have expired)")
+	}
 	derivedKey, err := scrypt.Key(key, salt, N, 8, 1, 32)
 	if err != nil {
 		return nil, err
